@@ -1,9 +1,11 @@
 package checks
 
 import (
+	"verif/harness/internal/c05"
 	"verif/harness/internal/c09"
 	"verif/harness/internal/c17"
 	"verif/harness/internal/c11"
+	"verif/harness/internal/c12"
 	"verif/harness/internal/c18"
 	"verif/harness/internal/c19"
 	"verif/harness/internal/c20"
@@ -16,8 +18,10 @@ func RegisterAll() {
 	run.Register(c19.New())
 	run.Register(c18.New())
 	registerSched()
+	run.Register(c05.New())
 	run.Register(c09.New())
 	run.Register(c20.New())
 	run.Register(c17.New())
 	run.Register(c11.New())
+	run.Register(c12.New())
 }
